@@ -727,6 +727,198 @@ def run_histories(res, tier, cases, results, one, n_timeouts):
     return state['timeouts']
 
 
+# --------------------------------------------------------------------------- tag layouts: else tags that repeat the start tag
+
+# white space that may separate the parts of a tag (tags are often wrapped over several lines / aligned with tabs)
+TAG_WS = [' ', '\t', '\n', '  ', '\n    ', '\t ', ' \n', '\n\t', '\n\n']
+IN_OPTS = ['mapping', 'reverse', 'size=5', 'size=5 orphan=1', 'prefix=p', 'no_push_item', 'size=4 overlap=1']
+ELSE_KINDS = ['same', 'bare', 'whole', 'other', 'prefix', 'longer']
+
+
+def _ltag(syn, kind, name, args=''):
+    if syn == 'dtml':
+        return ('</dtml-%s%s>' if kind == 'c' else '<dtml-%s%s>') % (name, args)
+    if syn == 'ssi':
+        return ('<!--#/%s%s-->' if kind == 'c' else '<!--#%s%s-->') % (name, args)
+    return ('%%(%s%s)]' if kind == 'c' else '%%(%s%s)[') % (name, args)
+
+
+def gen_else_layout(r, syn, block, sep2, ekind):
+    """a block (`if` / `in`) with an else tag, the parts of the tags separated by white space of every kind; the else
+    tag is bare, repeats the (first attribute of the) start tag -- the old spelling, a CONTINUATION tag of the block
+    --, repeats the whole argument text, or names something else (a different name, a proper prefix of the name, the
+    name with one more letter: an old-style else START tag, which nothing closes -> the source violates the grammar).
+    Returns (source, grammatical?, [(namespace, expected rendering)])."""
+    nm = r.choice(['seq', 'x', 'items2', 'a_b'])
+    if ekind == 'prefix' and len(nm) < 2:
+        nm = 'seq'
+    forms = ['%s', 'name=%s', 'expr="%s"'] + (['"%s"'] if syn != 'epfs' else [])
+    if ekind in ('same', 'whole', 'prefix', 'longer'):
+        forms = forms[:2]         # an else section takes a name only (an expr= there is an attribute error)
+    form = r.choice(forms)
+    target = form % nm
+    sep1 = r.choice(TAG_WS)
+    if syn == 'epfs' and target.startswith('"'):
+        sep1 = '  '
+    sargs = sep1 + target
+    if block == 'in':
+        opts = r.sample(IN_OPTS[:3] + IN_OPTS[4:6], r.randint(1, 2)) if r.random() < 0.7 else [r.choice(IN_OPTS)]
+        if sum('size' in o for o in opts) > 1:
+            opts = opts[:1]
+        sargs += sep2 + r.choice(TAG_WS).join(o.replace(' ', r.choice(TAG_WS)) for o in opts)
+        trail = r.choice(['', '', ' ', '\n'])
+    else:
+        trail = sep2 if r.random() < 0.5 else ''      # `if` takes no further attribute: the white space trails
+    sargs += trail
+    esep = r.choice(TAG_WS)
+    etrail = r.choice(['', '', ' ', '\n', '\t'])
+    if ekind == 'bare':
+        eargs = r.choice(['', '', ' ', '\n'])
+    elif ekind == 'same':
+        eargs = esep + target + etrail
+    elif ekind == 'whole':
+        eargs = esep + sargs.strip() + etrail
+    elif ekind == 'other':
+        eargs = esep + (form % r.choice(['other', 'y', nm.upper(), '_' + nm])) + etrail
+    elif ekind == 'prefix':
+        eargs = esep + (form % nm[:-1]) + etrail
+    else:
+        eargs = esep + (form % (nm + r.choice('sq_2'))) + etrail
+    if syn == 'epfs' and eargs.lstrip().startswith('"'):
+        eargs = '  ' + eargs.lstrip()
+    pre = r.choice(['', 'head\n', 'a\n\nb ', '\n'])
+    post = r.choice(['', ' tail', ' z\n'])          # (a line feed right after an end tag belongs to the tag)
+    body, mid, alt = 'BODY%d;' % r.randint(0, 9), 'MID;', 'ALT%d;' % r.randint(0, 9)
+    elif_ = block == 'if' and r.random() < 0.3
+    src = (pre + _ltag(syn, 'o', block, sargs) + body
+           + (_ltag(syn, 'o', 'elif', r.choice(TAG_WS) + 'zero') + mid if elif_ else '')
+           + _ltag(syn, 'o', 'else', eargs) + alt + _ltag(syn, 'c', block) + post)
+    # `whole` on an `in` tag with options: a continuation tag all right, but with attributes an else section does not accept
+    good = ekind in ('same', 'bare') or (ekind == 'whole' and block == 'if')
+    renders = []
+    if good:
+        items = [{'k': 1}, {'k': 2}]
+        renders = [({nm: [], 'zero': 0}, pre + alt + post),
+                   ({nm: items, 'zero': 0}, pre + (body * 2 if block == 'in' else body) + post)]
+    return src, good, renders
+
+
+def run_else_layouts(res, tier, cases, one):
+    from DocumentTemplate import HTML, String
+    r = common.rng('C06-layout')
+    for rep in range(2 if tier == 'quick' else 40):
+        for syn in ('dtml', 'ssi', 'epfs'):
+            for block in ('if', 'in'):
+                for sep2 in TAG_WS:
+                    for ekind in ELSE_KINDS:
+                        src, good, renders = gen_else_layout(r, syn, block, sep2, ekind)
+                        kind = 'epfs' if syn == 'epfs' else 'html'
+                        origin = 'layout-ok' if good else 'layout-bad'
+                        cases.append((kind, src, origin))
+                        rr = one(kind, src, origin)
+                        res.count('layout=%s/%s' % (block, ekind))
+                        case = {'syntax': kind, 'src': src, 'origin': origin}
+                        if good and rr['status'] != 'ok':
+                            res.oracle_fail.append({'case': case, 'what': 'a grammatical block whose else tag is bare / '
+                                                    'repeats the start tag was rejected: %r' % (rr,)})
+                        if not good and rr['status'] == 'ok':
+                            res.oracle_fail.append({'case': case, 'what': 'an else tag naming something other than the '
+                                                    'start tag (an old-style else START tag that nothing closes), or '
+                                                    'carrying attributes besides the name, was accepted'})
+                        if good and rr['status'] == 'ok':
+                            for ns, want in renders:
+                                try:
+                                    got = (String if kind == 'epfs' else HTML)(src)(**ns)
+                                except Exception as e:  # noqa
+                                    got = 'raised %r' % (e,)
+                                res.evaluations += 1
+                                if got != want:
+                                    res.oracle_fail.append({'case': case, 'what': 'rendering with %r gives %r, the '
+                                                            'sections of the block say %r' % (ns, got, want)})
+
+
+# --------------------------------------------------------------------------- error location under every kind of text
+
+def odd_chars():
+    """characters some notion of 'line' / 'white space' treats specially although they are not a line feed: all control,
+    format, space and separator characters of the BMP's first 0x3100 code points (carriage return, vertical tab, form
+    feed, the ASCII separators, NEL, no-break space, U+2028 / U+2029, ...).  A line feed is the only line terminator."""
+    import unicodedata
+    out = []
+    for c in range(0x3100):
+        ch = chr(c)
+        if ch == '\n':
+            continue
+        if ch.isspace() or unicodedata.category(ch) in ('Cc', 'Cf', 'Zs', 'Zl', 'Zp'):
+            out.append(ch)
+    return out
+
+
+def gen_prelude(r, syn, odd, must):
+    """text that precedes an offending tag: lines of plain text, valid simple tags with quoted attribute values, a
+    comment block, all sprinkled with odd characters (`must` is used at least once).  Returns the text."""
+    n = r.randint(1, 4)
+    k_must = r.randrange(n)
+    out = []
+    for k in range(n):
+        cs = [r.choice(odd) for _ in range(r.randint(0, 3))]
+        if k == k_must:
+            cs.append(must * r.choice([1, 1, 3]))
+        c = r.random()
+        words = [r.choice(['Page', 'one', 'x', 'q', '', '\n', '\r\n', ' ', '\n\n']) for _ in range(r.randint(1, 5))] + cs
+        r.shuffle(words)
+        txt = ''.join(words)
+        if c < 0.5:
+            out.append(txt)
+        elif c < 0.8:
+            val = txt.replace('"', '')
+            if syn == 'epfs':
+                val = val.replace(')', '')
+                out.append('%%(a null="%s")s' % val)
+            elif syn == 'ssi':
+                out.append('<!--#var a null="%s"-->' % val.replace('-->', ''))
+            else:
+                out.append('<dtml-var a null="%s">' % val)
+        else:
+            inner = txt if not any(o in txt for o in tmplgen.OPENERS) else 'c'
+            out.append(_ltag(syn, 'o', 'comment') + inner + _ltag(syn, 'c', 'comment'))
+        out.append(r.choice(['', '\n', '\n', ' ', must]))
+    return ''.join(out)
+
+
+def run_located_faults(res, tier, cases, one):
+    """every grammar fault of FAULTS x the three syntaxes, after a prelude of text / valid tags full of odd characters:
+    rejected, and the reported line is 1 + the number of LINE FEEDS before a tag with the reported text (the fault part
+    is printed on one line, so this pins the line exactly)"""
+    r = common.rng('C06-odd')
+    odd = odd_chars()
+    i = 0
+    for rep in range(2 if tier == 'quick' else 30):
+        for label, parts in FAULTS:
+            for syn in ('dtml', 'ssi', 'epfs'):
+                must = odd[i % len(odd)]
+                i += 1
+                kind = 'epfs' if syn == 'epfs' else 'html'
+                pre = gen_prelude(r, syn, odd, must)
+                fault = print_fault(parts, syn)
+                src = pre + fault + r.choice(['', 'post', '\npost' + must + '\n'])
+                origin = 'fault:' + label
+                cases.append((kind, src, origin))
+                rr = one(kind, src, origin)
+                res.count('odd-prelude')
+                if i % 3 == 0:      # the same prelude before a grammatical block: must compile ('valid' rule of one())
+                    good = pre + _ltag(syn, 'o', 'if', ' a') + 'then' + must + _ltag(syn, 'o', 'else') + 'or' + \
+                        _ltag(syn, 'c', 'if') + 'post'
+                    cases.append((kind, good, 'valid'))
+                    one(kind, good, 'valid')
+                if rr['status'] == 'parse-error' and rr['line'] is not None:
+                    lo = 1 + pre.count('\n')
+                    if rr['line'] != lo:
+                        res.oracle_fail.append({'case': {'syntax': kind, 'src': src, 'origin': origin},
+                                                'what': 'every tag of the faulty part starts on line %d (line feeds '
+                                                'before it + 1), the message says line %d' % (lo, rr['line'])})
+
+
 def run(res, tier, have_driver):
     r = common.rng('C06')
     res.rule = ('(a) valid abstract templates printed in dtml / SSI / EPFS syntax; (b) each with one mutation '
@@ -748,7 +940,15 @@ def run(res, tier, have_driver):
                 'a source seen earlier, a one-mutation neighbour, a source of the other syntax; expected outcome of '
                 'every compilation in a history = outcome (verdict, message, tag, line, compiled tree) of a FRESH '
                 'template object for that source; non-trivial = distinct source containing at least one tag opener / '
-                'distinct history' % (PUMP_TIMEOUT if tier == 'quick' else PUMP_TIMEOUT_THOROUGH))
+                'distinct history; (i) tag layouts: if / in blocks with an else tag that is bare, repeats the start '
+                'tag\'s first attribute (name, name=, expr=, "..." forms) or its whole argument text -> grammatical, '
+                'must compile AND render the section the namespace selects -- or names something else (other name, '
+                'proper prefix, one letter more) -> must be rejected; every white-space separator (blank, tab, line '
+                'feed, runs, wrapped + indented) after the first attribute x every else kind x three syntaxes; '
+                '(j) every grammar fault x three syntaxes after a prelude of text lines, valid tags with quoted '
+                'attribute values and comment blocks sprinkled with every control / format / space / separator '
+                'character below U+3100 (CR, VT, FF, FS/GS/RS, NEL, NBSP, U+2028/9 ...): rejected, reported line = '
+                '1 + number of line feeds before the faulty part' % (PUMP_TIMEOUT if tier == 'quick' else PUMP_TIMEOUT_THOROUGH))
     cases = []
     n_t = 250 if tier == 'quick' else 4000
     for i in range(n_t):
@@ -815,6 +1015,9 @@ def run(res, tier, have_driver):
         if one(kind, src, origin)['status'] == 'timeout':
             n_timeouts += 1
 
+    if n_timeouts < MAX_TIMEOUTS:
+        run_else_layouts(res, tier, cases, one)
+        run_located_faults(res, tier, cases, one)
     # compile histories on one object: expected outcome = a fresh template object's (the stateless verdicts above)
     if n_timeouts < MAX_TIMEOUTS:
         n_timeouts = run_histories(res, tier, cases, results, one, n_timeouts)
@@ -921,9 +1124,9 @@ def replay(path):
     dt = time.process_time() - t0
     rr.pop('blocks', None)
     fails = oracle(c['syntax'], c['src'], rr)
-    if c.get('origin') in ('valid', 'nest') and rr['status'] != 'ok':
+    if c.get('origin') in ('valid', 'nest', 'layout-ok') and rr['status'] != 'ok':
         fails.append('a grammatical template was rejected')
-    if (c.get('origin') == 'nest-broken' or str(c.get('origin')).startswith('fault:')) and rr['status'] == 'ok':
+    if (c.get('origin') in ('nest-broken', 'layout-bad') or str(c.get('origin')).startswith('fault:')) and rr['status'] == 'ok':
         fails.append('a source violating the tag grammar was accepted')
     if 'family' in c:
         print('family %s n=%s: %d characters, cpu %.3f s (recorded: %r)' % (c['family'], c.get('n'), len(c['src']), dt,
